@@ -26,3 +26,22 @@ PROPS["C10"] = {
     "stubs": ["go-health scheduler: OnComplete after each check with running ContiguousFailures (contract)"],
     "assumptions": [],
 }
+
+PROPS["C02"] = {
+    "harnesses": [
+        {"pkg": "app", "name": "VerifC02_Table", "quick": {}, "thorough": {}, "reach": ["end", "restart.taken", "restart.refused"],
+         "bounds": {"policy": "arbitrary string len<=16", "max_restarts": "[0,2^31]", "restarts": "[0,2^31]", "exit_code": "full int64",
+                    "backoff_seconds": "[-2^31,2^31]"}},
+    ],
+    "stubs": [],
+    "assumptions": ["max_restarts >= 0 (the statement is silent on negative values)", "second-valued options within +-2^31 (no Duration overflow)"],
+}
+
+PROPS["C13"] = {
+    "harnesses": [
+        {"pkg": "types", "name": "VerifC13_Names", "quick": {}, "thorough": {},
+         "bounds": {"replicas": "every n in [1,128] (fork)", "replica numbers": "symbolic 0<=i<j<n"}},
+    ],
+    "stubs": ["math.Log10 evaluated natively on the concrete replica count"],
+    "assumptions": [],
+}
